@@ -5,7 +5,7 @@
    (shown by the check as VIOLATION with a replay, corpus/C16/). *)
 From Coq Require Import List ZArith NArith Bool Permutation.
 From Coq Require Import String.
-From PC.Load Require Import Model Proofs Check.
+From PC.Load Require Import Model Proofs Check MonLink.
 Import ListNotations.
 Open Scope string_scope.
 
@@ -178,3 +178,29 @@ Proof.
             (same_file_refl ex_cfg))))|].
   vm_compute. repeat split; reflexivity.
 Qed.
+
+(* ---------- monitor and model speak the same language ------------------------------------------------
+   The check's monitor (Load/Check.v) was written independently of the model: it prints replica numbers
+   with the standard library's decimal printer, has its own replica-name formula, its own precedence
+   (replica number, process vars, project vars) and its own substitution.  For ALL inputs these coincide
+   with the model's hand-rolled %d, CalculateReplicaName, env and render - so the model's "%d" is the
+   decimal notation, and a templated field the monitor rejects is one on which the implementation left
+   the model. *)
+Theorem C16_monitor_decimal : forall n : nat, sdec n = dec n.
+Proof. exact sdec_dec. Qed.
+Print Assumptions C16_monitor_decimal.
+
+Theorem C16_monitor_replica_name : forall (nm : str) (reps i : nat), spec_name nm reps i = rname nm reps i.
+Proof. exact spec_name_rname. Qed.
+Print Assumptions C16_monitor_replica_name.
+
+Theorem C16_monitor_render : forall (G P : vars) (i : nat) (t : tpl) (s : str),
+  s <> [] -> parse s = Some t -> spec_render G P i t = render (env G P i) s.
+Proof. exact spec_render_is_model_render. Qed.
+Print Assumptions C16_monitor_render.
+
+Example C16_monitor_link_example :
+  parse (b "x{{.PC_REPLICA_NUM}}-{{.A}}") = Some [SLit (b "x"); SVar pc_replica_num; SLit (b "-"); SVar (b "A")] /\
+  spec_render [(b "A", b "g")] [(b "A", b "p")] 12 [SLit (b "x"); SVar pc_replica_num; SLit (b "-"); SVar (b "A")] = b "x12-p" /\
+  spec_name (b "w") 101 7 = b "w-007".
+Proof. vm_compute. repeat split; reflexivity. Qed.
